@@ -852,6 +852,63 @@ func suiteNumFun(o *Out, thorough bool, seed int64) {
 			}
 		}
 	}
+	// numbers whose exponent is far outside anything a formula can compute (a caller's decimal can have any scale): the
+	// integer nearest to a number below 1/2 in magnitude is 0, the greatest integer below a negative one is -1, the least
+	// above a positive one is 1; a huge number is its own floor and ceiling.  Scales around 2^16, 2^20 (where a guard
+	// "against absurd scales" would sit) and beyond; judged by value on the Go side (the model's exact integers would
+	// need 10^scale)
+	{
+		num := func(n int64) *decimal.Big { return decimal.New(n, 0) }
+		for _, k := range []int{400, 6176, 7000, 1<<16 - 1, 1<<16 + 1, 100000, 1<<20 - 1, 1 << 20, 1<<20 + 5, 2000000, 3000001} {
+			for _, m := range []int64{15, -15, 1, -1, 49999, -49999} {
+				if k >= 1<<20 && m != 15 && m != -15 && !thorough {
+					continue
+				}
+				tiny := new(decimal.Big).SetMantScale(m, k)
+				huge := new(decimal.Big).SetMantScale(m, -k)
+				lo, hi := num(0), num(1)
+				if m < 0 {
+					lo, hi = num(-1), num(0)
+				}
+				for _, c := range []struct {
+					f    string
+					x    *decimal.Big
+					want *decimal.Big
+				}{{"floor(x)", tiny, lo}, {"ceil(x)", tiny, hi}, {"round(x)", tiny, num(0)}, {"roundBank(x)", tiny, num(0)}, {"toInt(x)", tiny, num(0)}, {"floor(x) <= x", tiny, nil}, {"ceil(x) >= x", tiny, nil},
+					{"round(x)", huge, huge}, {"roundBank(x)", huge, huge}, {"x < 0 == " + fmt.Sprint(m < 0), tiny, nil}, {"max(x, 0) >= min(x, 0)", tiny, nil}} {
+					if k > 1<<16+1 && c.x == huge {
+						continue // (ceil and floor of a number beyond 10^384 are infinite: they work in the 16-digit context, section 7.3)
+					}
+					nt := fmt.Sprintf("NOP\textremescale\t%d:%d:%s", k, m, c.f)
+					o.Case(nt, "-", true)
+					src, err := formula.ParseSourceCode([]byte("[" + c.f + "]"))
+					if err != nil {
+						continue
+					}
+					rn := formula.NewRunner()
+					rn.SetThis(map[string]interface{}{"x": new(decimal.Big).Copy(c.x)})
+					var v interface{}
+					pan, msg := protect(func() { v, err = rn.Resolve(context.Background(), src.Expression) })
+					arr, _ := v.([]interface{})
+					if pan || err != nil || len(arr) != 1 {
+						o.Fail(nt, fmt.Sprintf("%s of %v x 10^%d failed: %v %s", c.f, m, -k, err, msg))
+						continue
+					}
+					if c.want == nil {
+						if arr[0] != true {
+							o.Fail(nt, fmt.Sprintf("%s is %v for x = %d x 10^%d", c.f, arr[0], m, -k))
+						}
+						continue
+					}
+					got, ok := arr[0].(*decimal.Big)
+					if !ok || got.Cmp(c.want) != 0 {
+						o.Fail(nt, fmt.Sprintf("%s of %d x 10^%d is %v, required %v", c.f, m, -k, arr[0], c.want))
+					}
+				}
+			}
+		}
+		o.Stat("extreme scales")
+	}
 	// the same three functions against references of 300 bits computed from the DECIMAL argument (series and Newton
 	// iterations over math/big): no float64 in the argument or in the reference, so the comparison is sharp
 	// everywhere, also next to 1 where ln and log lose every digit a float64 argument would have carried
